@@ -9,7 +9,7 @@ stated family."""
 import numpy as np
 
 from checks import sbcfam
-from gen import slabs
+from gen import slabs, structures
 from monitors import core, pipeline
 from harness import main as hmain
 
@@ -83,6 +83,9 @@ def run_case(case):
         return out
     rng = np.random.default_rng(slabs.stable_seed(cell["key"], case["seed_class"], case["k"]))
     atoms, _ = slabs.present(base, rng, noise=cell["noise"])
+    # decorations that must not matter (own random stream: the presentation itself is unchanged)
+    drng = np.random.default_rng(slabs.stable_seed(cell["key"], case["seed_class"], 977))
+    decorations = structures.decorate(atoms, drng) if drng.random() < 0.35 else []
     ok, why = slabs.bonding_precondition(atoms)
     if not ok:
         out = rec.export(); out["discarded"] = "precondition:%s" % why; out["info"] = out_info
@@ -119,7 +122,7 @@ def run_case(case):
         core.set_recorder(None)
     out = rec.export()
     out["info"] = {"key": cell["key"], "nontrivial": True,
-                   "classes": {"prototype": proto, "kind": cell["kind"], "facet": "".join(str(i) for i in cell.get("facet", [])) or "-",
+                   "classes": {"decorated": bool(decorations), "prototype": proto, "kind": cell["kind"], "facet": "".join(str(i) for i in cell.get("facet", [])) or "-",
                                "pbc": "TTT" if cell.get("pbc_z", True) else "TTF", "noise": cell["noise"], "natoms_bucket": len(atoms) // 50 * 50}}
     out["sample"] = {"cell": cell["key"], "natoms": len(atoms), "observed": obs}
     return out
